@@ -39,6 +39,6 @@ def check(ctx):
     ctx.notes.append('worst float MILLI-units observed (guard in units: 8 n^3 2^(n-1), x8 complex): %s' % dict(sorted(worst.items())))
     return ctx.finish(
         rule='cases: (i) every matrix of the TLC scope on Rat, every 2nd/3rd also on f64 and Complex (A + iA\'), (ii) seeded matrices of order 1..8 in 27 families (nonsingular and singular) for Rat, f64, Complex, (iii) special-value and extreme-magnitude families, (iv) 21 mutator sequences on one object. '
-             'Each case = determinant() and, for provably nonsingular input, inverse(). (v) 60/500 HISTORIES (mix cases: 8 calls whose sizes zig-zag across Rat/f64/Complex, some of them unlogged solver calls; a replay re-executes the whole history), (vi) dense-stored band / lower-triangular matrices with a small diagonal. Every call is logged even when it panics or returns a result of the wrong shape (such an event is rejected, never a tool error). (vii) EXPONENT SWEEP of exchange-requiring matrices by 2^k, k = -950..950 step 25 plus +-511..+-600 (Complex |k| <= 500): inverse at every k, determinant where ||A||_F^n is representable, (viii) growth adversaries (graded Wilkinson, rho = 0.9..1000, n = 2..8, noisy entries, transposed / row-permuted). Float inverse events additionally carry srunits = max|AX - I| in units of eps || |L||U| || max|X| (reference elimination in double-double, logged only when no pivot choice is nearly tied), guard 64 n (x8 complex). (ix) MIXED MAGNITUDES within one matrix (D1 A0 D2, independent power-of-two row / column scalings; exact reference det(A0) 2^(sum of exponents); determinant judged by |det^ - det| <= 64 n eps |det| tr(|A^-1||L||U|), inverse by the componentwise residual), (x) STRUCTURED small-integer matrices of order 5..12 (symmetric with cancelling signed row sums incl. vanishing leading minors, skew + diagonal, persymmetric, Toeplitz, circulant, arrowhead, singular leading block), (xi) POISONED histories (panicking calls through every entry point followed by logged calls). Non-trivial: n >= 2. Distinct = distinct (call, element type, operand hash, outcome).',
+             'Each case = determinant() and, for provably nonsingular input, inverse(). (v) 60/500 HISTORIES (mix cases: 8 calls whose sizes zig-zag across Rat/f64/Complex, some of them unlogged solver calls; a replay re-executes the whole history), (vi) dense-stored band / lower-triangular matrices with a small diagonal. Every call is logged even when it panics or returns a result of the wrong shape (such an event is rejected, never a tool error). (vii) EXPONENT SWEEP of exchange-requiring matrices by 2^k, k = -950..950 step 25 plus +-511..+-600 (Complex |k| <= 500): inverse at every k, determinant where ||A||_F^n is representable, (viii) growth adversaries (graded Wilkinson, rho = 0.9..1000, n = 2..8, noisy entries, transposed / row-permuted). Float inverse events additionally carry srunits = max|AX - I| in units of eps || |L||U| || max|X| (reference elimination in double-double, logged only when no pivot choice is nearly tied), guard 64 n (x8 complex). (ix) MIXED MAGNITUDES within one matrix (D1 A0 D2, independent power-of-two row / column scalings; exact reference det(A0) 2^(sum of exponents); determinant judged by |det^ - det| <= 64 n eps |det| tr(|A^-1||L||U|), inverse by the componentwise residual), (x) STRUCTURED small-integer matrices of order 5..12 (symmetric with cancelling signed row sums incl. vanishing leading minors, skew + diagonal, persymmetric, Toeplitz, circulant, arrowhead, singular leading block), (xi) POISONED histories (panicking calls through every entry point followed by logged calls). (xii) inverse() at order 257 (quick) and 300, 513 (thorough), judged by the componentwise residual. Non-trivial: n >= 2. Distinct = distinct (call, element type, operand hash, outcome).',
         trusted=['TLC', 'harness/src/suites/gauss.rs projections, double-double reference determinant and residuals (harness/src/dd.rs)', 'Gauss.tla definitions (Leibniz determinant, fraction-free determinant cross-checked against it) as the reference'],
         extra=dict(worst_float_milliunits=worst))
